@@ -204,7 +204,9 @@ def run(prog, rep):
             k = canon(strip(tr.operand(mn[0][1]["args"][1])))
             v = canon(tr.operand(mn[0][1]["args"][2]))
             fe["match_key"] = k
-            fe["match_value"] = "add_syntax_node(full match node)" if re.match(r"^Graph::add_syntax_node\(&\*\*arg:exec\.graph, \(Try::branch\(Option::ok_or_else\(Iterator::next\(&QueryMatch::nodes_for_capture_index\(&\*\*arg:exec\.mat, cast\(\*arg:exec\.%s\)\)\)" % idx, v) else v[:120]
+            undef = any(st["k"] == "assign" and st["rv"]["k"] == "aggregate" and st["rv"].get("variant") == "UndefinedCapture" for bb in sorted(body.reachable()) for st in body.blocks[bb]["stmts"])
+            fe["match_value"] = "add_syntax_node(full match node)" if re.match(r"^Graph::add_syntax_node\(&\*\*arg:exec\.graph, \(Try::branch\(Option::ok_or_else\(Iterator::next\(&QueryMatch::nodes_for_capture_index\(&\*\*arg:exec\.mat, cast\(\*arg:exec\.%s\)\)\)" % idx, v) or \
+                (undef and re.match(r"^Graph::add_syntax_node\(&\*\*arg:exec\.graph, \(Iterator::next\(&QueryMatch::nodes_for_capture_index\(&\*\*arg:exec\.mat, cast\(\*arg:exec\.%s\)\)\) as Some\)\.0\)$" % idx, v)) else v[:120]
             gs = [g for g in dominating_guards(body, tr, mn[0][0]) if g.variant == "Some" and "config.match_node_attr" in canon(g.cond)]
             fe["guarded"] = bool(gs)
             ok = fe["var"].lstrip("*") == "arg:self.node" and "config.match_node_attr as Some" in k and fe["match_value"].startswith("add_syntax_node") and fe["guarded"]
